@@ -350,6 +350,37 @@ def observe_local_attrs(netref, consts):
     return rows
 
 
+class NullChannel(object):
+    def send(self, data):
+        pass
+
+    def close(self):
+        pass
+
+    def fileno(self):
+        return -1
+
+
+def observe_classic_config(protocol, service):
+    """rpyc's classic mode, read off a connection established through the live `SlaveService` (whether it applies its
+    settings in `on_connect` or before the Connection is built): the seven attribute switches and `allow_pickle` as the
+    connection ends up with them when the caller passes no configuration; prefix and safe list must be the defaults"""
+    conn = service.SlaveService._connect(NullChannel(), {})
+    try:
+        cfg = dict(conn._config)
+    finally:
+        try:
+            conn.close()
+        except Exception:  # noqa
+            pass
+    for k in SWITCHES + ["allow_pickle"]:
+        if type(cfg.get(k)) is not bool:
+            raise Inexpressible("classic mode leaves %r non-Boolean" % k)
+    if cfg.get("exposed_prefix") != protocol.DEFAULT_CONFIG["exposed_prefix"] or cfg.get("safe_attrs") != protocol.DEFAULT_CONFIG["safe_attrs"]:
+        raise Inexpressible("classic mode changes exposed_prefix / safe_attrs")
+    return cfg
+
+
 def observe_buffiter(helpers, consts):
     names = handler_names(consts)
     rec = Recorder()
@@ -513,6 +544,13 @@ def gen_netref():
         raise Inexpressible("DEFAULT_CONFIG['safe_attrs'] is not a set of str")
     L += ["def defaultExposedPrefix : String := " + lean_str(cfg["exposed_prefix"]),
           "def safeAttrs : List String := " + lean_strs(sorted(sa)), ""]
+    # -- classic mode: the switches of a connection established through the live SlaveService
+    from rpyc.core import service
+    classic = observe_classic_config(protocol, service)
+    L.append("/-! ### classic mode: the configuration of a connection established through `SlaveService` (observed) -/")
+    for k in SWITCHES + ["allow_pickle"]:
+        L.append("def classic%s : Bool := %s" % (camel("x_" + k)[1:], "true" if classic[k] else "false"))
+    L.append("")
     L += ["end Rpyc.Gen.Netref", ""]
     return "\n".join(L)
 
